@@ -1,7 +1,7 @@
 #!/bin/bash
 # tools/confirm_seed.sh C12 <name>: re-run a sub-agent's demonstration both ways in its scratch worktree,
 # copy the deliverables to /verif/seeded/<name>/ and print the two exit codes.
-ID=$1; NAME=$2; WT=/tmp/seed-$ID
+ID=$1; NAME=$2; WT=${3:-/tmp/seed-$ID}
 set -u
 mkdir -p /verif/seeded/$NAME && cp $WT/SEED/* /verif/seeded/$NAME/
 cd $WT || exit 2
